@@ -238,6 +238,32 @@ def c14(run, replay=None):
     if d is None or d.get("decoy") or pr.returncode != 42 or os.path.realpath(d["cwd"]) != os.path.realpath(os.path.join(rroot, "work")):
         run.violation("transfer_pid with chdir and a relative program ./tools/run: expected the program under the chdir directory (exit 42, cwd work), got rc=%r dump=%r" % (pr.returncode, d),
                       dict(script=sc, observed=dict(rc=pr.returncode, dump=d, stderr=pr.stderr.decode("utf-8", "replace")[-200:])))
+    # argv[0]: the program is handed over under the NAME that was given - a bare name found through PATH stays that name,
+    # a relative path stays relative (multi-call binaries and `$0` depend on it)
+    broot = os.path.join(C.SANDBOX, "xb")
+    shutil.rmtree(broot, ignore_errors=True)
+    os.makedirs(os.path.join(broot, "bin"))
+    os.symlink(C.VH, os.path.join(broot, "bin", "vhbare"))
+    for prog, cmdform in (("vhbare", False), ("vhbare", True), ("./bin/vhbare", False), (os.path.join(broot, "bin", "vhbare"), False)):
+        if cmdform:
+            sc = "#!/usr/bin/env rash\n- command:\n    cmd: \"%s execdump one two\"\n    transfer_pid: true\n" % prog
+        else:
+            sc = "#!/usr/bin/env rash\n- command:\n    argv: [%s, execdump, one, two]\n    transfer_pid: true\n" % json.dumps(prog)
+        open(os.path.join(broot, "main.rh"), "w").write(sc)
+        dump = os.path.join(broot, "dump.json")
+        if os.path.exists(dump):
+            os.remove(dump)
+        pr = subprocess.run([C.RASH, "--output", "raw", os.path.join(broot, "main.rh")], capture_output=True, timeout=15, cwd=broot,
+                            env=dict(os.environ, VH_DUMP=dump, VH_EXIT="5", PATH=os.path.join(broot, "bin") + ":" + os.environ.get("PATH", "")))
+        try:
+            d = json.load(open(dump))
+        except Exception:
+            d = None
+        a0 = None if d is None else bytes.fromhex(d.get("argv0", "")).decode("utf-8", "replace")
+        if d is None or pr.returncode != 5 or a0 != prog or [bytes.fromhex(x).decode() for x in d["argv"]] != ["one", "two"]:
+            run.violation("transfer_pid: the program given as %r (%s form) is handed over with argv[0] = %r, arguments %r, exit %r" %
+                          (prog, "cmd" if cmdform else "argv", a0, None if d is None else d.get("argv"), pr.returncode),
+                          dict(script=sc, observed=dict(rc=pr.returncode, dump=d, stderr=pr.stderr.decode("utf-8", "replace")[-200:])))
     # K39: transfer_pid inside a file that is included by a task with become: the include runs in the forked child, so
     # the command replaces the CHILD - another PID, and the exit status reaches rash's parent wrapped
     if nb and os.geteuid() == 0:
@@ -343,6 +369,16 @@ def c15(run, replay=None):
     want = "%d\n\n%d\n\n\n" % (nb[0], os.getuid())
     if o["rc"] != 0 or not o["stdout"].startswith(want) or ("<<u>> é✓ 12 true 0 true %d" % os.getuid()) not in o["stdout"]:
         run.violation("become credentials / registered result: %r" % o, dict(script=script, observed=o))
+    # different become users in ONE run (each task names its own user, by name and by number), back and forth
+    bus = become_users()
+    if len(set((u, g) for _, u, g in bus)) > 1:
+        order = [bus[0]] + [b for b in bus if (b[1], b[2]) != (bus[0][1], bus[0][2])][:2] + [bus[0]]
+        sc = "#!/usr/bin/env rash\n" + "".join("- command: \"sh -c 'echo $(id -u):$(id -g)'\"\n  become: true\n  become_user: %s\n" % json.dumps(b[0]) for b in order) + "- command: \"sh -c 'echo $(id -u):$(id -g)'\"\n"
+        o = E.run_impls([dict(files={"main.rh": dict(raw=sc)}, world_writable=True)], timeout=20)[0]
+        got = [l for l in o["stdout"].split("\n") if l]
+        want = ["%d:%d" % (b[1], b[2]) for b in order] + ["%d:%d" % (os.getuid(), os.getgid())]
+        if o["rc"] != 0 or got != want:
+            run.violation("several become users in one run (%s): expected %r, got %r (rc %r)" % (", ".join(b[0] for b in order), want, got, o["rc"]), dict(script=sc, observed=o))
     # strings with control characters and unusual code points (NEL, DEL, C1 controls, U+2028, BOM, NUL-free C0) in the
     # store and in a registered result: they cross the process boundary unchanged
     odd = ["a\u0085b", "d\u007fe", "c1\u0080\u009fz", "ls\u2028ps\u2029", "\ufeffbom", "t\tb\rc", "e\u001b[0m", "k: v # {x}", "q\"uo'te\\", "\u00e9" * 600]
